@@ -78,9 +78,30 @@ def parse_header(line):
     return (('.' * level) + name.decode(), level, name.decode(), pairs)
 
 
+def big_int(s):
+    """int(s) for a decimal string of any length (the interpreter's
+    int<->str digit limit does not apply to arithmetic)."""
+    neg = s[:1] == '-'
+    digits = s[1:] if neg else s
+    n = 0
+    for i in range(0, len(digits), 2000):
+        chunk = digits[i:i + 2000]
+        n = n * (10 ** len(chunk)) + int(chunk)
+    return -n if neg else n
+
+
+def beyond_int_limit(s):
+    import sys
+    lim = getattr(sys, 'get_int_max_str_digits', lambda: 0)()
+    return bool(lim) and len(s.lstrip('-')) > lim
+
+
 def convert(pairs):
     """Reader-visible options: str keys; decimal values as int."""
     out = {}
     for k, v in pairs:
-        out[k.decode('ascii')] = int(v) if is_decimal(v) else v.decode('ascii')
+        out[k.decode('ascii')] = (
+            v.decode('ascii') if not is_decimal(v) else
+            big_int(v.decode('ascii')) if not beyond_int_limit(
+                v.decode('ascii')) else v.decode('ascii'))
     return out
